@@ -165,7 +165,7 @@ fn rawreq(u: &mut Unstructured, n: u8) -> Result<RawReq> {
         15..=17 => Route::GetSnapshot,
         18 => Route::Index,
         19 | 20 => Route::NearMiss(u.int_in_range(0..=9u8)?),
-        _ => Route::TrailingSlash(u.int_in_range(0..=3u8)?),
+        _ => Route::TrailingSlash(u.int_in_range(0..=12u8)?),
     };
     let method = if u.ratio(3, 4)? {
         match route {
